@@ -135,6 +135,14 @@ Theorem C06_cadence_interval_first_boundary : forall (I : R) ts p next, (0 < I)%
 Proof. exact interval_first. Qed.
 Print Assumptions C06_cadence_interval_first_boundary.
 
+(* corners of the cadence domain (what the code does, tied bit for bit by tools/c06.py 'autoF' / 'automix' / 'disabled'):
+   interval (walltime, step) = 0: the branch guard auto != 0 is false, nothing is ever written (RunF.run_thrF guard);
+   interval < 0 with dt > 0 (or > 0 with dt < 0): the threshold moves away, EVERY heartbeat writes a snapshot;
+   interval = NaN: one snapshot at the first heartbeat, then never (threshold NaN); interval = inf or longer than the run:
+   one snapshot; subnormal interval: absorbed, every heartbeat; step = 1: every heartbeat; step >= 2^63: one snapshot
+   (next_step does not wrap before steps_done reaches it).  The theorems C06_cadence_interval_* require 0 < I and steps
+   <= I; outside of that only the bit-exact tie speaks. *)
+
 (* the heartbeat threshold logic is ONE Num-polymorphic term (CadenceNum.run_thr): its binary64 instance is compared
    bit for bit with the library (snapshot times and the accumulated simulationarchive_next, incl. absorbed tiny
    intervals); its real instance is runI, for dt > 0 and (negated) for dt < 0, so the two cadence theorems above are
